@@ -37,6 +37,10 @@ def is_mutable_expr(repo, mod, v):
         name = f.id if isinstance(f, ast.Name) else None
         if name in ('dict', 'list', 'set', 'bytearray', 'defaultdict', 'OrderedDict', 'deque'):
             return True
+        # constructor classmethods of the mutable builtins: dict.fromkeys(...), bytearray.fromhex(...), list.copy ...
+        if isinstance(f, ast.Attribute) and isinstance(f.value, ast.Name) and f.value.id in (
+                'dict', 'list', 'set', 'bytearray', 'defaultdict', 'OrderedDict', 'deque', 'collections'):
+            return True
         r = repo.resolve_expr(mod, f) if isinstance(f, (ast.Name, ast.Attribute)) else None
         if r and r[0] == 'class' and not r[1].is_enum():
             return True
@@ -174,6 +178,36 @@ def readers_of(repo, g):
                         out.append('%s:%s' % (m.relpath.split('/')[-1], fn.name))
                         break
     return sorted(set(out))
+
+
+def check_dynamic_attribute_writes(run, repo):
+    """C20-G (dynamic): setattr / __dict__ / __setattr__ writes create state the inventory above cannot see (an attribute
+    promoted onto the shared configuration object survives the next load()); the package must not use them."""
+    n = 0
+    for m in repo.modules.values():
+        for fnode in ast.walk(m.tree):
+            if not isinstance(fnode, (ast.FunctionDef, ast.AsyncFunctionDef)):
+                continue
+            for node in ast.walk(fnode):
+                hit = None
+                if isinstance(node, ast.Call) and isinstance(node.func, ast.Name) and node.func.id in ('setattr', 'delattr'):
+                    hit = node.func.id
+                elif isinstance(node, ast.Call) and isinstance(node.func, ast.Attribute) and node.func.attr in ('__setattr__', '__delattr__'):
+                    hit = node.func.attr
+                elif isinstance(node, (ast.Assign, ast.AugAssign)):
+                    tg = node.targets if isinstance(node, ast.Assign) else [node.target]
+                    if any('__dict__' in ast.unparse(t) for t in tg):
+                        hit = '__dict__ store'
+                elif isinstance(node, ast.Call) and isinstance(node.func, ast.Attribute) and node.func.attr in ('update', 'setdefault') \
+                        and '__dict__' in ast.unparse(node.func.value):
+                    hit = '__dict__.' + node.func.attr
+                if hit:
+                    n += 1
+                    run.violation('C20-G', m.relpath, fnode.name, norm_stmt(node, 80),
+                                  'dynamic attribute write (%s): state is attached to an object at run time, outside the declared '
+                                  'attributes - on a shared object (the configuration singleton, a class) it leaks between instances and '
+                                  'survives a reload' % hit)
+    run.instance('C20-G', 'no dynamic attribute writes', obligations=1, ok=(n == 0), sample={'rule': 'setattr / __dict__ / __setattr__'})
 
 
 def check_nondeterminism(run, repo):
@@ -460,6 +494,7 @@ def main(repo_path, tier, seed, replay=None):
     repo = Repo(repo_path)
     eff = Effects(repo)
     check_shared_state(run, repo)
+    check_dynamic_attribute_writes(run, repo)
     check_nondeterminism(run, repo)
     attrs = check_scratch(run, repo, eff)
     check_pipeline(run, repo)
